@@ -283,18 +283,19 @@ def refStep (nnc : Bool) (rw : RWorld) (pre : Nat → FPoly) (op : Op) : RWorld 
   | .affineImage s v e den => (rw.set s ((rw s).map (·.affineImage v e den)), none)
   | .affinePreimage s v e den => (rw.set s ((rw s).map (·.affinePreimage v e den)), none)
   | .generalizedAffineImage s v r e den => (rw.set s ((rw s).map (·.genAffineImage v r e den)), none)
-  | .boundedAffineImage s v lb ub den => (rw.set s ((rw s).map (·.boundedAffineImage v lb ub den)), none)
+  | .boundedAffineImage s v lb ub den =>
+    (rw.set s (((rw s).filter fun r => r.n ≤ 2 && r.cs.length ≤ 6).map (·.boundedAffineImage v lb ub den)), none)
   | .embed s m => (rw.set s ((rw s).map (·.addDimsEmbed m)), none)
   | .project s m => (rw.set s ((rw s).map (·.addDimsProject m)), none)
   | .removeDims s vars => (rw.set s ((rw s).map (·.removeDims vars)), none)
   | .removeHigher s nd => (rw.set s ((rw s).map (·.removeHigherDims nd)), none)
   | .unconstrain s vars => (rw.set s ((rw s).map (·.unconstrain vars)), none)
   | .closure s => (rw.set s ((rw s).map (·.closure)), none)
-  | .expand s v m => (rw.set s ((rw s).map (·.expandDim v m)), none)
+  | .expand s v m => (rw.set s (((rw s).filter fun r => r.n ≤ 3 && r.cs.length ≤ 6).map (·.expandDim v m)), none)
   | .mapDims s f =>
     let newDim := f.foldl (fun m o => match o with | some k => max m (k + 1) | none => m) 0
     let pairs := (f.zipIdx.filterMap fun (o, j) => o.map fun k => (j, k))
-    (rw.set s ((rw s).map fun r => if r.n == 0 then r else r.mapDims newDim pairs), none)
+    (rw.set s (((rw s).filter fun r => r.cs.length ≤ 6).map fun r => if r.n == 0 then r else r.mapDims newDim pairs), none)
   | .fold s vars dest =>
     let r := match rw s, gensOfPoly (pre s).p with
       | some r0, some gs =>
@@ -322,12 +323,12 @@ def refStep (nnc : Bool) (rw : RWorld) (pre : Nat → FPoly) (op : Op) : RWorld 
   | _ => (rw, none)
 
 def sizeOK (ex : RefPoly) (r : FPoly) (maxRows : Nat) : Bool :=
-  ex.n ≤ 4 && ex.cs.length ≤ 12 && r.p.cs.rows.length ≤ 12 &&
+  ex.n ≤ 3 && ex.cs.length ≤ 10 && r.p.cs.rows.length ≤ 10 &&
     -- `checkDD` (FM on the lifted generator system) only on small generator systems
     (!(r.p.st.gUp && !r.p.st.cPend && !r.p.st.empty) ||
       (ex.n ≤ 3 && r.p.gs.rows.length ≤ (if r.p.nnc then maxRows - 3 else maxRows)))
 
-def refSmall (r : Option RefPoly) : Bool := match r with | some x => x.n ≤ 4 && x.cs.length ≤ 12 | none => true
+def refSmall (r : Option RefPoly) : Bool := match r with | some x => x.n ≤ 3 && x.cs.length ≤ 10 | none => true
 
 structure HState where
   hid : String := ""
